@@ -172,47 +172,61 @@ def bind(run):
                         "plain DaemonSets and capacity reservations occur; no volumes, topology constraints or DRA in these clusters (C01/C02/C17)"]
 
 
+CHUNK = 1200     # scenarios recorded + validated at a time (bounds the scratch space: traces of clean chunks are deleted)
+
+
 def judge(run, scen, prefix="c06"):
-    files = dc.record(run, scen, prefix=prefix, procs=PROCS[run.tier], shards=2)
-    summ = cc.summarise(files)
-    if len(summ) != len(scen):
-        raise vlib.InfraError("trace count mismatch (%d traces, %d scenarios)" % (len(summ), len(scen)))
-    by_name = {s["name"]: s for s in summ}
+    import shutil
     cov = collections.Counter()
-    for sc in scen:
-        s = by_name[sc["name"]]
-        panics = [e for e in s["errors"] if e["panic"]]
-        if panics:
-            raise vlib.InfraError("panic while running %s: %s" % (sc["name"], panics[0]))
-        run.note_case(sc["name"], len(s["cmds"]) > 0)
-        for c in s["cmds"]:
-            cov["commands"] += 1
-            cov["%s:%s" % (c["method"], c["decision"])] += 1
-            if c["e"] == "QCmd":
-                cov["started_by_controller_round"] += 1
-            if c["nrepl"]:
-                if c["cand_cts"] == ["spot"] and "spot" in c["repl_ct"]:
-                    cov["spot_to_spot:%s" % ("single" if c["ncand"] == 1 else "multi")] += 1
-                if "on-demand" in c["cand_cts"]:
-                    cov["on_demand_replaced:%s" % "+".join(c["repl_ct"])] += 1
-                if c["ncand"] > 1 and set(c["opts"]) & set(c["cand_types"]):
-                    cov["multi_replace_with_same_type_option"] += 1
-            if c["placed_existing"]:
-                cov["placements_on_existing_nodes"] += c["placed_existing"]
-            if c["placed_new"]:
-                cov["placements_on_replacement"] += c["placed_new"]
-        if sc["tags"].get("kind") == "churn":
-            # the Method step runs with the churn inside its validation wait; the Round that follows sees the churned world
-            cov["churn:%s" % ("command" if any(c["e"] == "Cmd" for c in s["cmds"]) else "no-command")] += 1
-    viol = run.validate("Consolidation_Trace", "Consolidation_Trace.cfg", files, heap="3g", par=PROCS[run.tier], timeout=3000)
+    obs = collections.Counter()
+    infra, summ = [], []
+    chunks = [scen[i:i + CHUNK] for i in range(0, len(scen), CHUNK)]
+    for ci, chunk in enumerate(chunks):
+        pfx = prefix if len(chunks) == 1 else "%s-%d" % (prefix, ci)
+        files = dc.record(run, chunk, prefix=pfx, procs=PROCS[run.tier], shards=2)
+        part = cc.summarise(files)
+        if len(part) != len(chunk):
+            raise vlib.InfraError("trace count mismatch (%d traces, %d scenarios)" % (len(part), len(chunk)))
+        by_name = {s["name"]: s for s in part}
+        for sc in chunk:
+            s = by_name[sc["name"]]
+            panics = [e for e in s["errors"] if e["panic"]]
+            if panics:
+                raise vlib.InfraError("panic while running %s: %s" % (sc["name"], panics[0]))
+            run.note_case(sc["name"], len(s["cmds"]) > 0)
+            for c in s["cmds"]:
+                cov["commands"] += 1
+                cov["%s:%s" % (c["method"], c["decision"])] += 1
+                if c["e"] == "QCmd":
+                    cov["started_by_controller_round"] += 1
+                if c["nrepl"]:
+                    if c["cand_cts"] == ["spot"] and "spot" in c["repl_ct"]:
+                        cov["spot_to_spot:%s" % ("single" if c["ncand"] == 1 else "multi")] += 1
+                    if "on-demand" in c["cand_cts"]:
+                        cov["on_demand_replaced:%s" % "+".join(c["repl_ct"])] += 1
+                    if c["ncand"] > 1 and set(c["opts"]) & set(c["cand_types"]):
+                        cov["multi_replace_with_same_type_option"] += 1
+                if c["placed_existing"]:
+                    cov["placements_on_existing_nodes"] += c["placed_existing"]
+                if c["placed_new"]:
+                    cov["placements_on_replacement"] += c["placed_new"]
+            if sc["tags"].get("kind") == "churn":
+                # the Method step runs with the churn inside its validation wait; the Round that follows sees the churned world
+                cov["churn:%s" % ("command" if any(c["e"] == "Cmd" for c in s["cmds"]) else "no-command")] += 1
+        viol = run.validate("Consolidation_Trace", "Consolidation_Trace.cfg", files, heap="3g", par=PROCS[run.tier], timeout=3000)
+        infra += [v for v in viol if v.get("guard", "").startswith("Infra_")]
+        obs.update("%s[%s]" % (v["guard"], v["sig"]) for v in viol if v.get("guard", "").startswith("Obs_"))
+        for s in part:
+            s.pop("file", None)
+        summ += part
+        if len(chunks) > 1 and not any(run.pmap.get(v.get("guard")) == run.pid for v in viol) and not os.environ.get("VERIF_KEEP"):
+            shutil.rmtree(os.path.join(run.work, "traces-" + pfx), ignore_errors=True)   # replay bodies need the traces of failing chunks only
     fresh = [v for v in run.viol if run.pmap.get(v.get("guard")) == run.pid and vlib.match_known(run.known, run.pid, v) is None]
-    infra = [v for v in viol if v.get("guard", "").startswith("Infra_")]
     if infra:
         msg = "the home search could not decide %d commands (scenario too large for the oracle): %s" % (len(infra), infra[:3])
         if not fresh:      # a real-code violation decided on other commands stands on its own
             raise vlib.InfraError(msg)
         run.notes.append(msg)
-    obs = collections.Counter("%s[%s]" % (v["guard"], v["sig"]) for v in viol if v.get("guard", "").startswith("Obs_"))
     for k, n in sorted(obs.items()):
         run.notes.append("observation (not judged): %s x%d" % (k, n))
     # vacuity: the guarded command classes must actually occur (a real-code violation found on the way stands on its own)
